@@ -72,6 +72,7 @@ def gen_scripts(ctx, consts, rbs, simulate=None, rng=None):
     if simulate and len(beh) > simulate[0]:
         # in -simulate mode TLC evaluates the Leaf constraint on every successor of the last state of a walk, so each
         # walk is printed once per alphabet letter; keep a seeded sample of the requested size
+        ctx.cov["behaviours_generated"] -= len(beh) - simulate[0]
         beh = rng.sample(beh, simulate[0])
     res = []
     for i, b in enumerate(beh):
@@ -272,7 +273,8 @@ def run(ctx):
         vlib.model_check(ctx, "MC_Twcc.tla", vlib.cfg_variant(ctx, "MC_Twcc_agree.cfg", {"MaxSteps": 3, "Times": "{0, 5, 30}"}))
     else:
         vlib.model_check(ctx, "MC_Twcc.tla", vlib.cfg_variant(ctx, "MC_Twcc.cfg", {"MaxSteps": 4}), timeout=3000)
-        vlib.model_check(ctx, "MC_Twcc.tla", vlib.cfg_variant(ctx, "MC_Twcc.cfg", {"MaxSteps": 5, "Times": "{5, 30}"}), timeout=3000)
+        vlib.model_check(ctx, "MC_Twcc.tla", vlib.cfg_variant(ctx, "MC_Twcc.cfg", {"MaxSteps": 5}), timeout=3000)
+        vlib.model_check(ctx, "MC_Twcc.tla", vlib.cfg_variant(ctx, "MC_Twcc.cfg", {"MaxSteps": 6, "Times": "{5, 30}"}), timeout=3000)
         vlib.model_check(ctx, "MC_Twcc.tla", vlib.cfg_variant(ctx, "MC_Twcc.cfg", {"MaxSteps": 4, "RB": 0, "Times": "{0, 3, 9, 11, 26}"}),
                          timeout=3000, note="time base 0: the arrivalTime >= 500 ms guard of the code is exercised")
         vlib.model_check(ctx, "MC_Twcc.tla", vlib.cfg_variant(ctx, "MC_Twcc_agree.cfg", {"MaxSteps": 4}), timeout=3000)
@@ -362,5 +364,11 @@ def run(ctx):
 
 
 def replay(ctx, path):
-    run_batch(ctx, vlib.replay_scripts(path), "replay")
+    import json
+    rep = json.load(open(path))
+    if rep.get("generator", {}).get("kind") == "backwards":      # compact form of a very long script
+        scripts = [backwards_script(rep["generator"]["n"], rep["generator"]["base"])]
+    else:
+        scripts = vlib.replay_scripts(path)
+    run_batch(ctx, scripts, "replay", tlc_timeout=3000)
     return vlib.finish(ctx, "model_checking", RULE)
